@@ -80,6 +80,19 @@ def _ang(rng):
             if rng.random() < 0.5 else float(rng.uniform(-7, 7)),)
 
 
+class _CtrlOpMaker:
+    """gate-like builder: .on(control, *targets) -> cirq.ControlledOperation([control], sub_gate.on(*targets))"""
+
+    def __init__(self, sub_gate, n_targets, control_values=None):
+        self.sub_gate, self.n_targets, self.control_values = sub_gate, n_targets, control_values
+
+    def on(self, *qs):
+        import cirq
+
+        assert len(qs) == self.n_targets + 1
+        return cirq.ControlledOperation(qs[:1], self.sub_gate.on(*qs[1:]), control_values=self.control_values)
+
+
 def ensure_specs():
     """Register exact library constants (cirq.X is a Pauli instance, XPowGate(1.0) is not) next to the shared pool."""
     if _READY:
@@ -99,6 +112,24 @@ def ensure_specs():
         ("SQRT_CZ", (2, 2), cirq.CZ ** 0.5, E("CZPow", 0.5)), ("SQRT_CZ_INV", (2, 2), cirq.CZ ** -0.5, E("CZPow", -0.5)),
         ("SYC", (2, 2), cirq_google.SYC, G.syc()),
     ]
+    # cirq.ControlledOperation itself (the operation class, which X.on(q).controlled_by(c) never produces): the first
+    # wire is the control.  Sub-operations that are the identity only up to a phase matter: controlled, that phase is
+    # a real Z-type rotation of the control, so nothing may treat the operation as negligible.
+    def ctrl_es(rng):
+        if rng.random() < 0.4:
+            return (float(rng.choice([2.0, -2.0, 4.0])), float(rng.choice([0.5, 0.25, -0.5, 1.0 / 3])))
+        return _es(rng)
+
+    for fam, mk in (("XPow", cirq.XPowGate), ("ZPow", cirq.ZPowGate), ("YPow", cirq.YPowGate)):
+        by["CtrlOp:" + fam] = GP.Spec("CtrlOp:" + fam, (2, 2), ctrl_es,
+                                      lambda p, mk=mk: _CtrlOpMaker(mk(exponent=p[0], global_shift=p[1]), 1),
+                                      lambda p, fam=fam: L.controlled(E(fam, p[0], p[1]), (2,), [(1,)]), tags=("const", "ctrlop"))
+    by["CtrlOp:Phase"] = GP.Spec("CtrlOp:Phase", (2,), lambda rng: (float(rng.choice([0.5, 1.0, -0.5, 0.25, 1e-9, 1.0 / 3])),),
+                                 lambda p: _CtrlOpMaker(cirq.GlobalPhaseGate(np.exp(1j * math.pi * p[0])), 0),
+                                 lambda p: np.diag([1, np.exp(1j * math.pi * p[0])]), tags=("const", "ctrlop"))
+    by["CtrlOp0:CZPow"] = GP.Spec("CtrlOp0:CZPow", (2, 2, 2), _cz_es,
+                                  lambda p: _CtrlOpMaker(cirq.CZPowGate(exponent=p[0], global_shift=p[1]), 2, control_values=[0]),
+                                  lambda p: L.controlled(E("CZPow", p[0], p[1]), (2,), [(0,)]), tags=("const", "ctrlop"))
     for name, shape, gate, ref in consts:
         by[name] = GP.Spec(name, shape, lambda rng: (), lambda p, gate=gate: gate, lambda p, ref=ref: np.asarray(ref, dtype=complex),
                            tags=("const",))
@@ -108,13 +139,15 @@ def ensure_specs():
 # (weight, spec name, parameter sampler or None for the spec's own)
 POOL_1Q = [(6, "ZPow", _es), (2, "rz", _ang), (4, "XPow", _es), (3, "YPow", _es), (2, "HPow", _es), (4, "PhasedXPow", _pxp),
            (6, "PhasedXZ", _pxz), (1, "rx", _ang), (1, "ry", _ang), (2.5, "PauliX", None), (2, "PauliY", None), (2.5, "PauliZ", None),
-           (1.5, "H", None), (1.5, "S", None), (0.7, "T", None), (0.7, "I1", None), (0.6, "Matrix2", None)]
+           (1.5, "H", None), (1.5, "S", None), (0.7, "T", None), (0.7, "I1", None), (0.6, "Matrix2", None), (0.5, "CtrlOp:Phase", None)]
 POOL_2Q = [(5, "CZPow", _cz_es), (4, "CZ", None), (1, "CXPow", _es), (1, "CNOT", None), (2, "SwapPow", _swap_es), (1.5, "SWAP", None),
            (3, "ISwapPow", _iswap_es), (1, "ISWAP", None), (1, "SQRT_ISWAP", None), (3, "FSim", _fsim), (1.5, "PhasedFSim", None),
            (1.5, "PhasedISwapPow", None), (2, "ZZPow", _es), (0.8, "XXPow", _es), (0.8, "YYPow", _es), (0.8, "cphase", _ang),
            (0.6, "givens", _ang), (0.6, "ms", _ang), (1.5, "SYC", None), (0.6, "TwoQubitDiagonal", None), (0.6, "Matrix2x2", None),
-           (0.8, "SQRT_CZ", None), (0.5, "SQRT_CZ_INV", None), (0.3, "Identity2x2", None)]
-POOL_3Q = [(1, "CCZPow", _es), (1, "CCXPow", _es), (0.5, "CSWAP", None), (0.4, "Diagonal3", None), (0.3, "QFT3", None)]
+           (0.8, "SQRT_CZ", None), (0.5, "SQRT_CZ_INV", None), (0.3, "Identity2x2", None),
+           (0.7, "CtrlOp:XPow", None), (0.7, "CtrlOp:ZPow", None), (0.4, "CtrlOp:YPow", None)]
+POOL_3Q = [(1, "CCZPow", _es), (1, "CCXPow", _es), (0.5, "CSWAP", None), (0.4, "Diagonal3", None), (0.3, "QFT3", None),
+           (0.5, "CtrlOp0:CZPow", None)]
 POOL_0Q = [(1, "GlobalPhase", None)]
 
 
@@ -227,6 +260,12 @@ def gen_measured(rng, n, nsteps, max_digits=5, allow_conf=True, allow_ctrl=True,
             steps.append({"t": "C", "cond": P.gen_cond(rng, measured), "inner": inner})
         elif r < 0.46 and allow_reset and not terminal_only:
             steps.append({"t": "K", "spec": "reset_d2", "p": (), "w": (int(rng.integers(n)),)})
+        elif r < 0.49 and allow_reset and not terminal_only:
+            # any library channel, user-defined Kraus / mixed-unitary channels (which are not hashable) included
+            k = 2 if (n >= 2 and rng.random() < 0.25) else 1
+            cs = [s_ for s_ in P.pools()["c"] if s_.shape == (2,) * k and "measure" not in s_.tags]
+            sp = cs[int(rng.integers(len(cs)))]
+            steps.append({"t": "K", "spec": sp.name, "p": sp.sample(rng), "w": tuple(int(w) for w in rng.choice(n, size=k, replace=False))})
         elif r < 0.58 and n >= 2:
             steps += _motif(rng, n)
         else:
